@@ -1,9 +1,10 @@
-SPECIFICATION Spec
+SPECIFICATION TraceSpec
 CONSTANTS
   Facet = "fs"
   PowDur = 2
   FixDur = 2
   RestDur = 3
   InstDur = 2
-INVARIANT TypeOK
+CONSTRAINT Record
+POSTCONDITION Report
 CHECK_DEADLOCK FALSE
